@@ -1,5 +1,6 @@
 import GnoVerif.Proofs.C38Meta
 import GnoVerif.Spec.C38
+import GnoVerif.Proofs.C38Crc
 /-! Helper lemmas for C38: framing — lines, round trip, truncation. -/
 namespace GnoVerif.C38
 open GnoVerif
@@ -330,4 +331,227 @@ theorem readLine_set_nonalpha (cfg : Cfg) (p : Bytes) (i : Nat) (v : UInt8)
     rw [hfil]
     exact decodeGroups_none_of_mem _ v (List.mem_set hi v) hv
 
+/-- `ReadMessage` on a non-meta line whose base64 text decodes to at least four bytes. -/
+theorem readLine_of_decode (cfg : Cfg) (l : Bytes) (a b c d : UInt8) (q : Bytes) (hh : l.head? ≠ some 35)
+    (hd : Base64.decode l = some (a :: b :: c :: d :: q)) :
+    readLine cfg l =
+      if cfg.maxSize < (q.length : Int) then .corrupt
+      else if q.isEmpty then .corrupt
+      else if Crc32c.crc32c q != ofBe32 a b c d then .corrupt
+      else if !cfg.bodyOK q then .corrupt
+      else .msg q := by
+  unfold readLine
+  split
+  · simp [Base64.decode, Base64.decodeGroups] at hd
+  · rename_i c0 rest
+    have hc : (c0 == 35) = false := by
+      have : c0 ≠ 35 := fun e => hh (by simp [e])
+      simpa using this
+    simp only [hc, Bool.false_eq_true, if_false, hd]
+
+theorem exists_four {l : Bytes} (h : 4 ≤ l.length) : ∃ a b c d, l = a :: b :: c :: d :: l.drop 4 := by
+  match l, h with
+  | a :: b :: c :: d :: r, _ => exact ⟨a, b, c, d, rfl⟩
+
+theorem split_prefix4 {pre r p : Bytes} {k0 k1 k2 k3 : UInt8} (hl : 4 ≤ pre.length)
+    (h : pre ++ r = k0 :: k1 :: k2 :: k3 :: p) : ∃ pre', pre = k0 :: k1 :: k2 :: k3 :: pre' ∧ p = pre' ++ r := by
+  match pre, hl with
+  | a :: b :: c :: d :: pre', _ =>
+    simp only [List.cons_append, List.cons.injEq] at h
+    obtain ⟨rfl, rfl, rfl, rfl, h5⟩ := h
+    exact ⟨pre', rfl, h5.symm⟩
+
+/-- Replacing one character of a data line by ANOTHER ALPHABET CHARACTER, anywhere but
+at position 5 (the one character that mixes CRC bits with payload bits): the line is
+reported as corruption, or — when only bits the decoder ignores changed, or the
+character is the same — the original message comes back. -/
+theorem readLine_set_alpha (cfg : Cfg) (p : Bytes) (g : GoodPayload cfg p) (i w : Nat)
+    (hi : i < (msgText p).length) (hw : w < 64) (h5 : i ≠ 5) :
+    readLine cfg ((msgText p).set i (Base64.encChar w)) = .corrupt ∨
+    readLine cfg ((msgText p).set i (Base64.encChar w)) = .msg p := by
+  obtain ⟨pre, mid, mid', suf, hB, hdec, hlen, hmid, hlo, hhi⟩ :=
+    Base64.decodeGroups_set_alpha (be32 (Crc32c.crc32c p) ++ p) i w hi hw
+  -- the damaged text still consists of alphabet characters
+  have halpha : ∀ c ∈ (msgText p).set i (Base64.encChar w), Base64.IsAlpha c := by
+    intro c hc
+    rcases List.mem_or_eq_of_mem_set hc with h | rfl
+    · exact msgText_alpha p c h
+    · exact ⟨w, hw, rfl⟩
+  have hfil : ((msgText p).set i (Base64.encChar w)).filter (fun c => !Base64.isSkipped c)
+      = (msgText p).set i (Base64.encChar w) := by
+    apply List.filter_eq_self.mpr
+    intro c hc
+    obtain ⟨n, hn, rfl⟩ := halpha c hc
+    simp [Base64.isSkipped_encChar hn]
+  have hdecode : Base64.decode ((msgText p).set i (Base64.encChar w)) = some (pre ++ mid' ++ suf) := by
+    unfold Base64.decode; rw [hfil]; exact hdec
+  have hhead : ((msgText p).set i (Base64.encChar w)).head? ≠ some 35 := by
+    intro e
+    obtain ⟨n, hn, e2⟩ := halpha 35 (List.mem_of_mem_head? e)
+    exact Base64.encChar_ne_hash hn e2.symm
+  have hfit : ¬ (cfg.maxSize < (p.length : Int)) := by have := g.fits; omega
+  have hemp : p.isEmpty = false := by simpa using g.nonempty
+  simp only [be32, List.cons_append, List.nil_append] at hB
+  by_cases hcase : i ≤ 4
+  · -- only bytes of the CRC field can have changed; the payload is intact
+    have ht : (pre ++ mid).length ≤ 4 := by simp only [List.length_append]; omega
+    have ht' : (pre ++ mid').length ≤ 4 := by simp only [List.length_append] at ht ⊢; omega
+    have hdropB : ((pre ++ mid) ++ suf).drop 4 = p := by rw [← hB]; rfl
+    have hlenB : 4 ≤ ((pre ++ mid') ++ suf).length := by
+      have : ((pre ++ mid) ++ suf).length = p.length + 4 := by rw [← hB]; simp
+      simp only [List.length_append] at this ⊢; omega
+    have hdrop : ((pre ++ mid') ++ suf).drop 4 = p := by
+      have e1 : ((pre ++ mid') ++ suf).drop 4 = suf.drop (4 - (pre ++ mid').length) := by
+        rw [List.drop_append, List.drop_of_length_le ht', List.nil_append]
+      have e2 : ((pre ++ mid) ++ suf).drop 4 = suf.drop (4 - (pre ++ mid).length) := by
+        rw [List.drop_append, List.drop_of_length_le ht, List.nil_append]
+      have e3 : (pre ++ mid').length = (pre ++ mid).length := by simp [hlen]
+      rw [e1, e3, ← e2, hdropB]
+    obtain ⟨a, b, c, d, hform⟩ := exists_four hlenB
+    rw [hdrop] at hform
+    rw [hform] at hdecode
+    rw [readLine_of_decode cfg _ a b c d p hhead hdecode]
+    simp only [hfit, if_false, hemp, Bool.false_eq_true, g.body, Bool.not_true]
+    by_cases hcrc : (Crc32c.crc32c p != ofBe32 a b c d) = true
+    · left; simp [hcrc]
+    · right; simp [hcrc]
+  · -- only payload bytes can have changed, inside a window of at most two bytes
+    have hpre : 4 ≤ pre.length := by omega
+    have hB' : pre ++ (mid ++ suf) = UInt8.ofNat ((Crc32c.crc32c p).toNat / 16777216) ::
+        UInt8.ofNat ((Crc32c.crc32c p).toNat / 65536 % 256) :: UInt8.ofNat ((Crc32c.crc32c p).toNat / 256 % 256) ::
+        UInt8.ofNat ((Crc32c.crc32c p).toNat % 256) :: p := by rw [← List.append_assoc]; exact hB.symm
+    obtain ⟨pre', hpre', hp⟩ := split_prefix4 hpre hB'
+    have hform : pre ++ mid' ++ suf = UInt8.ofNat ((Crc32c.crc32c p).toNat / 16777216) ::
+        UInt8.ofNat ((Crc32c.crc32c p).toNat / 65536 % 256) :: UInt8.ofNat ((Crc32c.crc32c p).toNat / 256 % 256) ::
+        UInt8.ofNat ((Crc32c.crc32c p).toNat % 256) :: (pre' ++ mid' ++ suf) := by
+      rw [hpre']; simp
+    rw [hform] at hdecode
+    rw [readLine_of_decode cfg _ _ _ _ _ _ hhead hdecode, ofBe32_be32]
+    have hlenp : (pre' ++ mid' ++ suf).length = p.length := by rw [hp]; simp [hlen]
+    have hfit' : ¬ (cfg.maxSize < ((pre' ++ mid' ++ suf).length : Int)) := by rw [hlenp]; exact hfit
+    have hemp' : (pre' ++ mid' ++ suf).isEmpty = false := by
+      have : (pre' ++ mid' ++ suf) ≠ [] := by
+        intro e; rw [e] at hlenp
+        exact g.nonempty (List.eq_nil_of_length_eq_zero hlenp.symm)
+      simpa using this
+    by_cases hm : mid = mid'
+    · right
+      have : pre' ++ mid' ++ suf = p := by rw [hp, hm, List.append_assoc]
+      rw [this]
+      simp [hfit, hemp, g.body]
+    · left
+      have hne : Crc32c.crc32c (pre' ++ mid' ++ suf) ≠ Crc32c.crc32c p := by
+        rw [hp, ← List.append_assoc]
+        exact fun e => Crc32c.crc32c_window_ne pre' mid mid' suf hlen (by omega) hm e.symm
+      have hb : (Crc32c.crc32c (pre' ++ mid' ++ suf) != Crc32c.crc32c p) = true := by simpa using hne
+      simp only [hfit', if_false, hemp', Bool.false_eq_true, hb, if_true]
+
+/-- all single-byte corruptions of a data line covered by the two lemmas above -/
+theorem readLine_set_guarded (cfg : Cfg) (p : Bytes) (g : GoodPayload cfg p) (i : Nat) (v : UInt8)
+    (hi : i < (msgText p).length) (h10 : v ≠ 10) (h13 : v ≠ 13) (hh : ¬ (i = 0 ∧ v = 35))
+    (h5 : Base64.decChar v = none ∨ i ≠ 5) :
+    readLine cfg ((msgText p).set i v) = .corrupt ∨ readLine cfg ((msgText p).set i v) = .msg p := by
+  cases hd : Base64.decChar v with
+  | none => exact Or.inl (readLine_set_nonalpha cfg p i v hi hd h13 h10 hh)
+  | some w =>
+    have hw := Base64.decChar_lt hd
+    have he := Base64.encChar_of_decChar hd
+    rw [← he]
+    refine readLine_set_alpha cfg p g i w hi hw ?_
+    rcases h5 with h | h
+    · rw [hd] at h; cases h
+    · exact h
+
+/-! #### one damaged line inside a log -/
+
+theorem completeLines_encodeAll_append (items : List Item) (rest : Bytes) :
+    completeLines (encodeAll items ++ rest) = items.map lineText ++ completeLines rest := by
+  induction items with
+  | nil => simp [encodeAll]
+  | cons i is ih =>
+    rw [encodeAll_cons, List.append_assoc, List.cons_append,
+      completeLines_line _ _ (nl_not_mem_lineText i), ih]
+    rfl
+
+theorem readLinesSkip_append_good (cfg : Cfg) (items : List Item) (g : ∀ i ∈ items, GoodItem cfg i)
+    (rest : List Bytes) :
+    readLinesSkip cfg (items.map lineText ++ rest)
+      = (items.map Event.item ++ (readLinesSkip cfg rest).1, (readLinesSkip cfg rest).2) := by
+  induction items with
+  | nil => simp
+  | cons i is ih =>
+    have hi := readLine_lineText cfg i (g i List.mem_cons_self)
+    have ih' := ih (fun x hx => g x (List.mem_cons_of_mem _ hx))
+    cases i with
+    | msg p => simp only [List.map_cons, List.cons_append, readLinesSkip, hi, itemRes, ih']
+    | mark h => simp only [List.map_cons, List.cons_append, readLinesSkip, hi, itemRes, ih']
+
+/-- A log in which the text of ONE line was replaced by `l'` (no newline in it): the other
+lines are read exactly as written; the damaged line contributes what `readLine` says. -/
+theorem readAllSkip_damaged (cfg : Cfg) (before after : List Item)
+    (gb : ∀ i ∈ before, GoodItem cfg i) (ga : ∀ i ∈ after, GoodItem cfg i)
+    (l' : Bytes) (hnl : (10 : UInt8) ∉ l') :
+    readAllSkip cfg (encodeAll before ++ (l' ++ 10 :: encodeAll after)) =
+      match readLine cfg l' with
+      | .msg q => (before.map Event.item ++ Event.item (.msg q) :: after.map Event.item, .eof)
+      | .mark h => (before.map Event.item ++ Event.item (.mark h) :: after.map Event.item, .eof)
+      | .corrupt => (before.map Event.item ++ Event.skipped :: after.map Event.item, .eof)
+      | .metaEof => (before.map Event.item, .eof)
+      | .metaErr => (before.map Event.item, .metaerr) := by
+  unfold readAllSkip
+  rw [completeLines_encodeAll_append, completeLines_line _ _ hnl, completeLines_encodeAll,
+    readLinesSkip_append_good cfg before gb]
+  have ha := readLinesSkip_map cfg after ga
+  cases hr : readLine cfg l' <;> simp [readLinesSkip, hr, ha]
+
+theorem nl_not_mem_msgText (p : Bytes) : (10 : UInt8) ∉ msgText p := Base64.nl_not_mem_encode _
+
+theorem nl_not_mem_set {l : Bytes} {i : Nat} {v : UInt8} (hl : (10 : UInt8) ∉ l) (hv : v ≠ 10) :
+    (10 : UInt8) ∉ l.set i v := by
+  intro h
+  rcases List.mem_or_eq_of_mem_set h with h1 | h1
+  · exact hl h1
+  · exact hv h1.symm
+
+/-- the damaged log really is the written log with one byte replaced -/
+theorem set_in_line (before after : List Item) (p : Bytes) (i : Nat) (v : UInt8) (hi : i < (msgText p).length) :
+    (encodeAll (before ++ .msg p :: after)).set ((encodeAll before).length + i) v
+      = encodeAll before ++ ((msgText p).set i v ++ 10 :: encodeAll after) := by
+  have e : encodeAll (before ++ .msg p :: after) = encodeAll before ++ (msgText p ++ 10 :: encodeAll after) := by
+    simp [encodeAll, encodeItem, encodeMsg_eq]
+  rw [e, List.set_append_right _ _ (by omega)]
+  congr 1
+  have : (encodeAll before).length + i - (encodeAll before).length = i := by omega
+  rw [this, List.set_append_left _ _ hi]
+
+
+theorem readLines_append_good (cfg : Cfg) (items : List Item) (g : ∀ i ∈ items, GoodItem cfg i)
+    (rest : List Bytes) :
+    readLines cfg (items.map lineText ++ rest)
+      = (items ++ (readLines cfg rest).1, (readLines cfg rest).2) := by
+  induction items with
+  | nil => simp
+  | cons i is ih =>
+    have hi := readLine_lineText cfg i (g i List.mem_cons_self)
+    have ih' := ih (fun x hx => g x (List.mem_cons_of_mem _ hx))
+    cases i with
+    | msg p => simp only [List.map_cons, List.cons_append, readLines, hi, itemRes, ih']
+    | mark h => simp only [List.map_cons, List.cons_append, readLines, hi, itemRes, ih']
+
+/-- stop-at-first-error reading of a log with one damaged line -/
+theorem readAll_damaged (cfg : Cfg) (before after : List Item)
+    (gb : ∀ i ∈ before, GoodItem cfg i) (ga : ∀ i ∈ after, GoodItem cfg i)
+    (l' : Bytes) (hnl : (10 : UInt8) ∉ l') :
+    readAll cfg (encodeAll before ++ (l' ++ 10 :: encodeAll after)) =
+      match readLine cfg l' with
+      | .msg q => (before ++ .msg q :: after, .eof)
+      | .mark h => (before ++ .mark h :: after, .eof)
+      | .corrupt => (before, .corrupt)
+      | .metaEof => (before, .eof)
+      | .metaErr => (before, .metaerr) := by
+  unfold readAll
+  rw [completeLines_encodeAll_append, completeLines_line _ _ hnl, completeLines_encodeAll,
+    readLines_append_good cfg before gb]
+  have ha := readLines_map cfg after ga
+  cases hr : readLine cfg l' <;> simp [readLines, hr, ha]
 end GnoVerif.C38
